@@ -20,6 +20,19 @@ fn ser_opt_i128<S: serde::Serializer>(v: &Option<i128>, s: S) -> Result<S::Ok, S
         None => s.serialize_none(),
     }
 }
+fn ser_u128<S: serde::Serializer>(v: &u128, s: S) -> Result<S::Ok, S::Error> {
+    if *v <= u64::MAX as u128 {
+        s.serialize_u64(*v as u64)
+    } else {
+        s.serialize_str(&v.to_string())
+    }
+}
+fn ser_opt_u128<S: serde::Serializer>(v: &Option<u128>, s: S) -> Result<S::Ok, S::Error> {
+    match v {
+        Some(x) => ser_u128(x, s),
+        None => s.serialize_none(),
+    }
+}
 fn ser_i128<S: serde::Serializer>(v: &i128, s: S) -> Result<S::Ok, S::Error> {
     s.serialize_str(&v.to_string())
 }
@@ -27,6 +40,7 @@ fn ser_i128<S: serde::Serializer>(v: &i128, s: S) -> Result<S::Ok, S::Error> {
 #[derive(Clone, Debug, PartialEq, Eq, Serialize)]
 pub struct TimingRec {
     pub time: TimeRec,
+    #[serde(serialize_with = "ser_opt_u128")]
     pub min_wait_ns: Option<u128>,
 }
 
@@ -39,6 +53,7 @@ pub struct SchedRec {
 
 #[derive(Clone, Debug, PartialEq, Eq, Serialize, Default)]
 pub struct ProtoRec {
+    #[serde(serialize_with = "ser_opt_u128")]
     pub poll_ns: Option<u128>,
     pub failures: u32,
     pub proxied: u32,
@@ -183,7 +198,7 @@ pub enum PolicyRec {
 #[derive(Clone, Debug, PartialEq, Eq, Serialize)]
 pub enum TimerArg {
     Until(TimeRec),
-    For(u128),
+    For(#[serde(serialize_with = "ser_u128")] u128),
 }
 
 #[derive(Clone, Debug, PartialEq, Eq, Serialize)]
@@ -284,16 +299,25 @@ pub enum DiskOp {
 
 #[derive(Clone, Debug, PartialEq, Eq, Serialize)]
 pub enum MetricRec {
-    UpdateCheckResponseTime { ns: u128, successful: bool },
-    UpdateCheckInterval { ns: u128, mono: bool, source: Src },
-    SuccessfulUpdateDuration(u128),
-    SuccessfulUpdateFromFirstSeen(u128),
-    FailedUpdateDuration(u128),
+    UpdateCheckResponseTime {
+        #[serde(serialize_with = "ser_u128")]
+        ns: u128,
+        successful: bool,
+    },
+    UpdateCheckInterval {
+        #[serde(serialize_with = "ser_u128")]
+        ns: u128,
+        mono: bool,
+        source: Src,
+    },
+    SuccessfulUpdateDuration(#[serde(serialize_with = "ser_u128")] u128),
+    SuccessfulUpdateFromFirstSeen(#[serde(serialize_with = "ser_u128")] u128),
+    FailedUpdateDuration(#[serde(serialize_with = "ser_u128")] u128),
     UpdateCheckFailureReason(String),
     RequestsPerCheck { count: u64, successful: bool },
     AttemptsToSuccessfulCheck(u64),
     AttemptsToSuccessfulInstall { count: u64, successful: bool },
-    WaitedForRebootDuration(u128),
+    WaitedForRebootDuration(#[serde(serialize_with = "ser_u128")] u128),
     FailedBootAttempts(u64),
     OmahaEventLost { etype: u8, result: u8, errorcode: Option<i32> },
 }
